@@ -72,9 +72,17 @@ def matches_deviation_plan(alt, resp, rt):
     want = sorted(tuple(e.path) for e in alt.errors)
     if set(got) != set(want):
         return False
-    called = sorted(c[0] for c in rt.calls)
-    planned = sorted(c.path for c in alt.calls if c.args is not None)
-    return called == planned
+    from simv.oracle import ROOT, _is_prefix, visible_nulls
+    called = [c[0] for c in rt.calls]
+    planned = {c.path for c in alt.calls if c.args is not None}
+    if len(set(called)) != len(called) or not set(called) <= planned:
+        return False
+    # calls the engine did not make must lie under a position the plan nulls anyway (as in check_calls)
+    nulls = visible_nulls(alt)
+    for path in planned - set(called):
+        if not any(q == ROOT or (q != path and _is_prefix(q, path)) for q in nulls):
+            return False
+    return True
 
 
 def exc_violation(out):
